@@ -15,7 +15,8 @@ META = {
         '(R3) nothing outside ArrayBase writes the two fields, and overridden MutableSequence methods obey R1, '
         '(R4) index arguments that may be slices are not handed to the per-item size function, (R5) every compose of '
         'a container derives the prefix from the body it just composed and max_byte_num fits the prefix width. '
-        'Decided on the AST of common/base.py and, for R3/R5, over the whole package.'),
+        'Decided on the AST of common/base.py and, for R3/R5, over the whole package.'
+        ' R6: extend/clear/reverse are overridden by atomic versions. R7: per vector class, what get_item_size counts equals what the composer writes per item (table of compatible pairs; separator joined text vectors reviewed). R8: bounds equal the specification\'s.'),
     'assumptions': ['collections.abc.MutableSequence mixin methods (extend, pop, remove, +=, reverse, clear) are '
                     'implemented in terms of the abstract methods insert/__getitem__/__setitem__/__delitem__/__len__'],
     'trusted_base': ['python ast', 'sa.model', 'sa.interp constant folding of get_param()'],
